@@ -52,11 +52,11 @@ func (b *cutBody) Read(p []byte) (int, error) {
 func (b *cutBody) Close() error { return nil }
 
 type framedBody struct {
-	bytes    []byte
-	msgs     []*tpb.Message
-	msgEnds  []int // offset just after each complete message frame
-	trailer  *httpgrpc.HttpTrailer
-	okEnd    int // offset just after the trailer frame
+	bytes   []byte
+	msgs    []*tpb.Message
+	msgEnds []int // offset just after each complete message frame
+	trailer *httpgrpc.HttpTrailer
+	okEnd   int // offset just after the trailer frame
 }
 
 func frame32(b *bytes.Buffer, sz int32, payload []byte) {
@@ -83,11 +83,11 @@ func encodeStream(msgs []*tpb.Message, tr *httpgrpc.HttpTrailer) *framedBody {
 }
 
 type clientResult struct {
-	msgs   []*tpb.Message
-	err    error // final error (io.EOF = success)
-	pan    string
-	alloc  uint64
-	hung   bool
+	msgs  []*tpb.Message
+	err   error // final error (io.EOF = success)
+	pan   string
+	alloc uint64
+	hung  bool
 }
 
 // feedClient lets httpgrpc.Channel decode body as the reply of a server-streaming call.
